@@ -342,6 +342,10 @@ def aliasdeps(repo):
                     and isinstance(n.value, ast.Call) and call_name(n.value) in byname:
                 g = byname[call_name(n.value)]
                 src = ast.unparse(g.node)
+                # the recognition of the aliases may live in a helper the function iterates
+                for x in walk_no_nested_funcs(g.node):
+                    if isinstance(x, ast.Call) and call_name(x) in byname and call_name(x) != g.name:
+                        src += "\n" + ast.unparse(byname[call_name(x)].node)
                 adds = any(isinstance(x, ast.Assign) and isinstance(x.targets[0], ast.Subscript) and isinstance(x.value, ast.BinOp)
                            and isinstance(x.value.op, ast.BitOr) for x in walk_no_nested_funcs(g.node)) or \
                     any(isinstance(x, ast.AugAssign) and isinstance(x.target, ast.Subscript) and isinstance(x.op, ast.BitOr) for x in walk_no_nested_funcs(g.node))
@@ -636,4 +640,40 @@ def natsort(repo):
     if res.instances < 3 and not res.findings:
         raise AnalysisError(f"only {res.instances} sorts of reported nodes found")
     res.analysed = [m.rel]
+    return res
+
+
+def aliasedge(repo):
+    """R-ALIASEDGE (C15): every reference to a member of an anonymous `bits` goes through a compiler-made alias
+    `let a = <anonymous field>.a`, of which the cycle graph sees only the head.  What the member itself depends on (a
+    static reference in its size or condition) is recorded under the member's own name, so a cycle `member -> Foo.k ->
+    alias a` is open unless the graph has the edge alias -> member.  Decided: _find_dependencies runs, over every
+    Structure, an action that takes the (alias, member) pairs from a recogniser of such aliases (`is_anonymous`, the
+    second path component) and accumulates `dependencies[alias] |= {member}`."""
+    res = RuleResult("R-ALIASEDGE")
+    m = repo.mod(DC)
+    byname = {f.name: f for f in m.top_funcs()}
+    fd = byname.get("_find_dependencies")
+    if fd is None:
+        raise AnalysisError("dependency_checker._find_dependencies not found")
+    res.instances = 2
+    ok = False
+    for c in walk_no_nested_funcs(fd.node):
+        if isinstance(c, ast.Call) and (call_name(c) or "").endswith("fast_traverse_ir_top_down") and len(c.args) >= 3 \
+                and "Structure" in ast.unparse(c.args[1]) and isinstance(c.args[2], ast.Name) and c.args[2].id in byname:
+            act = byname[c.args[2].id]
+            src = ast.unparse(act.node)
+            # recogniser: the action itself or a helper it iterates
+            helpers = [byname[call_name(x)] for x in walk_no_nested_funcs(act.node) if isinstance(x, ast.Call) and call_name(x) in byname]
+            recog = any("is_anonymous" in ast.unparse(h.node) and re.search(r"path\[1\]", ast.unparse(h.node)) for h in helpers + [act])
+            adds = any(isinstance(x, ast.AugAssign) and isinstance(x.op, ast.BitOr) and isinstance(x.target, ast.Subscript)
+                       and ast.unparse(x.target.value) == "dependencies" for x in walk_no_nested_funcs(act.node)) or \
+                bool(re.search(r"dependencies\[\w+\]\.(add|update)\(", src))
+            if recog and adds:
+                ok = True
+    if not ok:
+        res.add(f"{DC}|_find_dependencies|alias-member-edge", "the cycle graph has no edge from the alias of an anonymous-`bits` member to the member: "
+                "`0 [+1] bits:` / `0 [+Foo.k] UInt a` with `let k = $upper_bound(a)` is not reported as a cycle and the bounds pass ends "
+                "in TypeError (int(None)); with `let k = 0*b + 4` the cyclic module is accepted", DC, fd.line, "_find_dependencies")
+    res.analysed = [DC]
     return res
